@@ -941,45 +941,29 @@ def run(ctx: Ctx) -> None:
     ctx.tag("unmodelled_skipped", "match/inputs/params", skipped)
 
     # ---- suite: notations (function-level resolution walk) ---------------------------------------
-    LIST_CLASS = "in_features-spelled-as-list-or-set"
     reqs, impls, metas = [], [], []
     for _ in range(ctx.budget(90, 1500)):
         d = rng.randint(1, K)
-        ch = gen_chain(G, rng, d)
+        ch = gen_chain(G, rng, d, groups=[g for g in MODELLED if g != "TextCleaningFeatureGroup"])
+        if rng.random() < 0.15:
+            ch["ops"][-1] = gen_op(G, rng, "TextCleaningFeatureGroup")  # its operations live in options: only as the last (top-level) op
         exp = norm_chain(expected_chain_json(ch))
-        variants: List[Tuple[str, Any]] = [("name", Feature(render(ch)))]
-        leaf = rng.choice(["str", "fset", "feat", "list", "set", "str_sp", "fset_feat"])
-        inner = rng.choice(["feat", "feat", "fset", "list"])
-        variants.append((f"options[{leaf},{inner}]", build_options_feature(ch, leaf, inner, rng)))
-        if d >= 2:
-            variants.append(("options-mixed", build_options_feature(ch, "str", "feat", rng, mixed_at=rng.randint(1, d - 1))))
-        for form in ("nameobj", "ctx", "optflat", "optin", "nested"):
-            doc = json.dumps([build_json(ch, form)])
-            try:
-                fs = load_features_from_config(doc)
-                variants.append((f"json-{form}", fs[0] if not isinstance(fs[0], str) else Feature(fs[0])))
-            except Exception as e:
-                ctx.violation("notations", {"chain": ch, "notation": f"json-{form}", "doc": doc}, f"documented JSON form {form} of {render(ch)!r} is rejected by the loader: {e!r}"[:300])
-        for vname, feat in variants:
+        for vname, feat in notation_variants(ctx, G, ch, rng):
             impl = real_resolve(G, feat)
             impl_n = norm_chain(impl)
-            text_top_only = all(op["g"] != "TextCleaningFeatureGroup" for op in ch["ops"][:-1])
-            uses_list = ("list" in vname or "set," in vname or vname.startswith("options[set"))
             reqs.append({"op": "C16.resolve", "fuel": 14, "feat": enc(feat), "prop": False})
             impls.append(impl_n)
             metas.append((ch, vname))
-            ctx.case("notations", {"chain": ch, "notation": vname}, d >= 2 or vname != "name", depth=d, notation=vname.split("[")[0])
+            ctx.case("notations", {"chain": ch, "notation": vname}, d >= 2 or vname != "name", depth=d, notation=vname.split("[")[0].split("@")[0])
             # oracle from the property text: every notation resolves to the generated chain
-            exp_v = exp
-            if vname == "name" or vname in ("json-nameobj",) or vname == "options-mixed":
-                # operations given only through options cannot be carried by inner levels of a pure name
-                exp_v = norm_chain(expected_chain_json({"src": ch["src"], "ops": [
-                    ({"g": o["g"], "p": []} if (o["g"] == "TextCleaningFeatureGroup" and (vname != "options-mixed" or True) and not _carries_ops(vname, idx, len(ch["ops"]), feat)) else o)
-                    for idx, o in enumerate(ch["ops"])]}))  # fmt: skip
-            if impl_n != exp_v and not (not text_top_only and vname != "name"):
-                cls_ = LIST_CLASS if (isinstance(impl, dict) and impl.get("err") == "TypeError" and _has_list_spelling(feat)) else None
+            if impl_n != exp:
+                cls_ = None
+                if isinstance(impl, dict) and impl.get("err") == "TypeError" and has_list_value(feat):
+                    cls_ = LIST_CLASS
+                elif isinstance(impl, dict) and impl.get("err") == "ValueError" and amp_before_suffix(feat):
+                    cls_ = AMP_CLASS
                 ctx.violation("notations", {"chain": ch, "notation": vname, "feature": enc(feat)},
-                              f"notation {vname} of chain {render(ch)!r} resolves to {cjson(impl_n)[:200]}, the chain is {cjson(exp_v)[:200]}", impl_n, exp_v, finding_class=cls_)  # fmt: skip
+                              f"notation {vname} of chain {render(ch)!r} resolves to {cjson(impl_n)[:200]}, the chain is {cjson(exp)[:200]}", impl_n, exp, finding_class=cls_)  # fmt: skip
     outs = ctx.lean.batch(reqs)
     for r, i, o, (ch, vname) in zip(reqs, impls, outs, metas):
         model = norm_chain(o) if o is not None else {"err": "any"}
@@ -1013,44 +997,120 @@ def run(ctx: Ctx) -> None:
     run_e2e_suite(ctx, G, K)
 
 
-def _has_list_spelling(feat: Any) -> bool:
-    """does some level of the (nested) options feature spell in_features as a Python list or set?"""
+LIST_CLASS = "option-value-spelled-as-list-or-set"
+AMP_CLASS = "multi-input-op-not-last"
+SAMEKEY_CLASS = "options-form-consecutive-levels-share-a-key-with-different-values"
+NESTED_CLASS = "group-options-nest-of-different-levels"
+FSET_CLASS = "nested-frozenset-of-feature-exponential-time"
+GEO3_CLASS = "geo-distance-name-with-3-or-more-inputs"
+TILDE_CLASS = "source~i-followed-by-suffix"
+
+
+def option_levels(feat: Any) -> List[Any]:
+    """the Feature objects of an options nest, outermost first (following the Feature inside in_features)"""
     from mloda.user import Feature
 
-    seen = 0
+    out: List[Any] = []
     cur = feat
-    while isinstance(cur, Feature) and seen < 20:
-        seen += 1
+    while isinstance(cur, Feature) and len(out) < 30:
+        out.append(cur)
         v = cur.options.get("in_features")
-        if isinstance(v, (list, set)):
-            return True
         nxt = None
         if isinstance(v, Feature):
             nxt = v
         elif isinstance(v, (frozenset, list, set, tuple)):
-            for x in v:
-                if isinstance(x, Feature):
-                    nxt = x
+            fs = [x for x in v if isinstance(x, Feature) and (x.options.group or x.options.context)]
+            nxt = fs[0] if len(fs) == 1 else None
         cur = nxt
+    return out
+
+
+def level_items(f: Any) -> Dict[str, Any]:
+    d = {str(k.value if isinstance(k, Enum) else k): v for k, v in list(f.options.group.items()) + list(f.options.context.items())}
+    d.pop("in_features", None)
+    return d
+
+
+def has_list_value(feat: Any) -> bool:
+    """some option value of some level is a Python list or set (JSON arrays arrive as lists)"""
+    for f in option_levels(feat):
+        for v in list(f.options.group.values()) + list(f.options.context.values()):
+            if isinstance(v, (list, set)):
+                return True
     return False
 
 
-def _carries_ops(vname: str, idx: int, nops: int, feat: Any) -> bool:
-    """a text-cleaning level keeps its operations iff that level is option-configured (the operations live in options only)"""
-    if vname in ("name", "json-nameobj"):
-        return False
-    if vname == "options-mixed":
-        # levels >= mixed_at are option configured: they are the Feature objects of the nest; count them
-        from mloda.user import Feature
+def name_has_amp_before_suffix(name: str) -> bool:
+    parts = name.split("__")
+    return len(parts) >= 3 and "&" in parts[0]
 
-        depth_opt = 0
-        cur = feat
-        while isinstance(cur, Feature):
-            depth_opt += 1
-            v = cur.options.get("in_features")
-            cur = v if isinstance(v, Feature) else None
-        return idx >= nops - depth_opt
-    return True
+
+def amp_before_suffix(feat: Any) -> bool:
+    """a name used in the notation writes a multi-input operation that is not the last suffix"""
+    for f in option_levels(feat):
+        nm = f.name.name if hasattr(f.name, "name") else str(f.name)
+        if name_has_amp_before_suffix(nm):
+            return True
+        v = f.options.get("in_features")
+        vs = [v] if isinstance(v, str) else [x for x in v if isinstance(x, str)] if isinstance(v, (list, set, frozenset, tuple)) else []
+        if any(name_has_amp_before_suffix(x) for x in vs):
+            return True
+    return False
+
+
+def samekey_levels(feat: Any) -> bool:
+    ls = option_levels(feat)
+    for a, b in zip(ls, ls[1:]):
+        da, db = level_items(a), level_items(b)
+        if any(k in db and db[k] != da[k] for k in da):
+            return True
+    return False
+
+
+def group_nest_differs(feat: Any) -> bool:
+    ls = option_levels(feat)
+    for a, b in zip(ls, ls[1:]):
+        ga = {k: v for k, v in a.options.group.items() if k != "in_features"}
+        if ga and level_items(a) != level_items(b):
+            return True
+    return False
+
+
+def notation_variants(ctx: Ctx, G: Groups, ch: Dict[str, Any], rng: Any, e2e: bool = False, tagp: str = "") -> List[Tuple[str, Any]]:
+    """the notations of one chain as Feature objects (JSON forms through the real loader)"""
+    from mloda.core.api.feature_config.loader import load_features_from_config
+    from mloda.user import Feature, Options
+
+    d = len(ch["ops"])
+    top = ch["ops"][-1]
+    top_opts = {"cleaning_operations": tuple(top["p"])} if top["g"] == "TextCleaningFeatureGroup" else {}
+    name = render(ch)
+    out: List[Tuple[str, Any]] = [("name", Feature(name, Options(context=dict(top_opts))) if top_opts else Feature(name))]
+    if e2e:
+        # frozenset({Feature}) nests cost ~50x per level in the engine (FSET_CLASS, probed separately)
+        leaf = rng.choice(["str", "fset", "feat", "list"] + (["fset_feat"] if d == 1 else []))
+        inner = rng.choice(["feat", "feat", "fset"]) if (d == 2 and leaf != "fset_feat") else "feat"
+    else:
+        leaf = rng.choice(["str", "fset", "feat", "list", "set", "str_sp", "fset_feat"])
+        inner = rng.choice(["feat", "feat", "fset", "list"])
+    if len(ch["src"]) > 1 and leaf in ("str", "str_sp", "feat"):
+        leaf = {"str": "str", "str_sp": "str_sp", "feat": "fset_feat" if not e2e or d == 1 else "fset"}[leaf]
+    out.append((f"options[{leaf},{inner}]", build_options_feature(ch, leaf, inner, rng, tag=tagp + "p")))
+    if d >= 2:
+        k = rng.randint(1, d - 1)
+        out.append((f"options-mixed@{k}", build_options_feature(ch, "str", "feat", rng, mixed_at=k, tag=tagp + "m")))
+        out.append(("options-group-nested", build_options_feature(ch, "str" if len(ch["src"]) == 1 else "fset", "feat", rng, where="group", tag=tagp + "g")))
+    for form in ("nameobj", "ctx", "optflat", "optin", "nested"):
+        item = build_json(ch, form, tag=tagp + "j" + form[0])
+        if form == "nameobj" and top_opts:
+            item["context_options"] = {k: list(v) for k, v in top_opts.items()}
+        doc = json.dumps([item])
+        try:
+            fs = load_features_from_config(doc)
+            out.append((f"json-{form}", fs[0] if not isinstance(fs[0], str) else Feature(fs[0])))
+        except Exception as e:
+            ctx.violation("notations", {"chain": ch, "notation": f"json-{form}", "doc": doc}, f"documented JSON form {form} of {render(ch)!r} is rejected by the loader: {e!r}"[:300])
+    return out
 
 
 # --------------------------------------------------------------------------------------
